@@ -16,6 +16,7 @@ import (
 	"fmt"
 	"math/rand/v2"
 	"net/http"
+	"net/http/httptest"
 	"net/url"
 	"sort"
 	"strings"
@@ -128,6 +129,8 @@ var provCatalogue = func() []provSpec {
 		provSpec{Name: "custom-then-error", Mask: 1<<0 | 1<<1, Variant: "a", Fail: true},
 		provSpec{Name: "defaults+cors+claims", Extra: "cors"},
 		provSpec{Name: "defaults+minimal-config", Flags: 0x1f},
+		provSpec{Name: "defaults+interceptors", Extra: "interceptor"},
+		provSpec{Name: "custom-token+interceptors", Mask: 1 << 1, Variant: "b", Extra: "interceptor"},
 	)
 	return c
 }()
@@ -374,6 +377,44 @@ type provPrint struct {
 	DiscBody  string            `json:"discovery_body"`
 	Preflight string            `json:"preflight"`
 	Keys      string            `json:"keys"`
+	Order     string            `json:"interceptor_order,omitempty"`
+}
+
+// sharedInterceptors is a caller-owned interceptor list: each interceptor adds its name to a response header before it
+// calls the next handler, so the header lists them in the order they ran.
+const orderHeader = "X-C20-Interceptor-Order"
+
+func namedInterceptor(name string) op.HttpInterceptor {
+	return func(next http.Handler) http.Handler {
+		return http.HandlerFunc(func(w http.ResponseWriter, r *http.Request) {
+			w.Header().Add(orderHeader, name)
+			next.ServeHTTP(w, r)
+		})
+	}
+}
+
+var (
+	icNames            = []string{"ic-first", "ic-second", "ic-third"}
+	sharedInterceptors = func() []op.HttpInterceptor {
+		l := make([]op.HttpInterceptor, 0, 8)
+		for _, n := range icNames {
+			l = append(l, namedInterceptor(n))
+		}
+		return l
+	}()
+	// interceptorBaseline: the order in which the first provider of the process built with the list ran it
+	interceptorBaseline string
+)
+
+// interceptorNames identifies the elements of a list by running each on its own.
+func interceptorNames(l []op.HttpInterceptor) []string {
+	var out []string
+	for _, ic := range l[:min(len(l), cap(l))] {
+		rec := httptest.NewRecorder()
+		ic(http.HandlerFunc(func(http.ResponseWriter, *http.Request) {})).ServeHTTP(rec, httptest.NewRequest("GET", "/", nil))
+		out = append(out, strings.Join(rec.Header().Values(orderHeader), "+"))
+	}
+	return out
 }
 
 func notFound(r *opdrv.Resp) bool {
@@ -386,6 +427,7 @@ func fingerprint(h http.Handler, host string, paths []string) provPrint {
 	fp := provPrint{Disc: map[string]string{}, Served: map[string]bool{}}
 	d := serve(h, "GET", host, oidc.DiscoveryEndpoint, nil, nil)
 	fp.DiscBody = d.Body.String()
+	fp.Order = strings.Join(d.HeaderMap.Values(orderHeader), ",")
 	var doc map[string]any
 	_ = json.Unmarshal(d.Body.Bytes(), &doc)
 	for f, k := range epDisc {
@@ -490,7 +532,12 @@ func (c *isoCase) buildProvider(ps provSpec) {
 		c.w.structPtr(name+".cors", "C20:mutation:cors.Options.", co)
 		opts = append(opts, op.WithCORSOptions(co))
 	case "interceptor":
-		opts = append(opts, op.WithHttpInterceptors(func(h http.Handler) http.Handler { return h }))
+		// ONE caller-owned list (with spare capacity) handed to every provider built with this option: the list keeps its
+		// order and every provider runs the interceptors in the same order
+		c.w.value("caller.interceptors", "C20:mutation:WithHttpInterceptors.list", func() any {
+			return fmt.Sprintf("len=%d cap=%d %s", len(sharedInterceptors), cap(sharedInterceptors), strings.Join(interceptorNames(sharedInterceptors), ","))
+		})
+		opts = append(opts, op.WithHttpInterceptors(sharedInterceptors...))
 	case "hostissuer":
 		mkIssuer = func() func(bool) (op.IssuerFromRequest, error) { return op.IssuerFromHost("") }
 	case "fwdissuer":
@@ -532,6 +579,21 @@ func (c *isoCase) buildProvider(ps provSpec) {
 		fp := fingerprint(inst.h[r], inst.host, c.paths)
 		inst.fp[r] = fp.String()
 		inst.lite[r] = fingerprint(inst.h[r], inst.host, nil).String()
+		if ps.Extra == "interceptor" && r == 0 {
+			switch {
+			case fp.Order == "":
+				c.harness("provider built with interceptors answered discovery without the order header")
+			case interceptorBaseline == "":
+				interceptorBaseline = fp.Order
+				c.run.Count("iso_interceptors", "first provider ran the list as "+fp.Order)
+			case fp.Order != interceptorBaseline:
+				c.violation("C20:isolation:WithHttpInterceptors.order", fmt.Sprintf("a provider built with the caller's interceptor list runs it as %s, the first provider built with the very same list ran it as %s", fp.Order, interceptorBaseline),
+					map[string]any{"order": fp.Order, "first_provider_order": interceptorBaseline, "list_now": interceptorNames(sharedInterceptors)})
+			default:
+				c.run.Count("iso_interceptors", "later provider ran the list in the same order")
+				c.run.Observed("iso:interceptor-list-shared-by-two-providers")
+			}
+		}
 		leaks, own := endpointLeaks(inst, r, fp)
 		for range own {
 			c.run.Count("grey", "own-endpoint-option-ineffective")
